@@ -267,11 +267,28 @@ Definition honest_rows (rows : list renvrow) (T : rtruth) (tm : cfmsg) (startH :
       opt_eqb Z.eqb (lookup p filts) (Some (plook (rt_filt T) t))
     else true) rows.
 
+(* ---------- the getcfheaders broadcasts of the implementation ---------- *)
+(* (start height, stop hash) of every getcfheaders broadcast the harness saw.
+   A request that spans more than MAXCFH headers cannot be answered: a
+   conforming peer stays silent (btcd), a cfheaders message cannot hold more.
+   The scripted peers behave like that; the monitors expect the honest peer's
+   true answer only to a request that can be answered. *)
+Definition req_too_long (bl : list Z) (reqs : list (Z * Z)) : bool :=
+  List.existsb (fun r : Z * Z =>
+    match index_of2 (snd r) bl 0 with
+    | Some e => MAXCFH <? e - fst r + 1
+    | None => false
+    end) reqs.
+
+Definition honest_ans (nc : bool) (raws : list rawresp) (m : cfmsg) (p : Z) : bool :=
+  if nc then match first_raw p raws with None => true | Some _ => false end
+  else honest_raw raws m p.
+
 (* ---------- family U: getUncheckpointedCFHeaders ---------- *)
 Definition uobs := (bool * list Z * option (Z * Z))%type.     (* error?, bans (sorted set), filter tip after *)
 
-Definition u_verdict (id : Z) (ht : htab) (bl fl : runs) (raws : list rraw) (envr : list renvrow)
-           (T : rtruth) (honest : list Z) (ob : uobs) : list (Z * Z * Z * Z) :=
+Definition u_verdict (id : Z) (reqs : list (Z * Z)) (ht : htab) (bl fl : runs) (raws : list rraw)
+           (envr : list renvrow) (T : rtruth) (honest : list Z) (ob : uobs) : list (Z * Z * Z * Z) :=
   let Hf := hlook ht in
   let a := {| abl := unruns bl; afl := unruns fl |} in
   let v := aview a in
@@ -298,7 +315,8 @@ Definition u_verdict (id : Z) (ht : htab) (bl fl : runs) (raws : list rraw) (env
     | Some tm =>
       let startH := u32 (fh + 1) in
       let hyp := negb (length honest =? 0)%nat && rows_in_class envr T tm startH &&
-                 List.forallb (fun p => honest_rows envr T tm startH p && honest_raw rs tm p) honest in
+                 List.forallb (fun p => honest_rows envr T tm startH p &&
+                                        honest_ans (req_too_long (abl a) reqs) rs tm p) honest in
       if hyp then
         let ok_honest := List.forallb (fun p => negb (mem p obans)) honest in
         let ok_value :=
@@ -307,7 +325,10 @@ Definition u_verdict (id : Z) (ht : htab) (bl fl : runs) (raws : list rraw) (env
         let liars := List.map fst (List.filter (fun p : Z * cfmsg => negb (msg_eqb (snd p) tm))
                                                (fst (get_headers v startH rs))) in
         let ok_liars := oerr || List.forallb (fun p => mem p obans) liars in
-        if ok_honest && ok_value && ok_liars then [] else [(id, 2, 0, 0)]
+        (* with an honest peer connected the call commits: in particular the
+           request is one a conforming peer can answer *)
+        let ok_progress := negb oerr && negb (req_too_long (abl a) reqs) in
+        if ok_honest && ok_value && ok_liars && ok_progress then [] else [(id, 2, 0, 0)]
       else []
     | None => []
     end
@@ -317,7 +338,7 @@ Definition u_verdict (id : Z) (ht : htab) (bl fl : runs) (raws : list rraw) (env
 (* ---------- family R: resolveConflict ---------- *)
 Definition robs := (list Z * option runs)%type.               (* bans (sorted set), returned list *)
 
-Definition r_verdict (id : Z) (ht : htab) (bl fl : runs) (hard : list (Z * Z)) (raws : list rraw)
+Definition r_verdict (id : Z) (reqs : list (Z * Z)) (ht : htab) (bl fl : runs) (hard : list (Z * Z)) (raws : list rraw)
            (envr : list renvrow) (hint : Z) (cps : list (Z * runs))
            (T : rtruth) (tcps : runs) (honest : list Z) (ob : robs) : list (Z * Z * Z * Z) :=
   let Hf := hlook ht in
@@ -351,7 +372,8 @@ Definition r_verdict (id : Z) (ht : htab) (bl fl : runs) (hard : list (Z * Z)) (
       match true_msg v T startH with
       | Some tm =>
         rows_in_class envr T tm startH &&
-        List.forallb (fun p => honest_rows envr T tm startH p && honest_raw rs tm p) honest &&
+        List.forallb (fun p => honest_rows envr T tm startH p &&
+                               honest_ans (req_too_long (abl a) reqs) rs tm p) honest &&
         List.forallb (fun p : Z * cfmsg => m_prev (snd p) =? m_prev tm) (fst (get_headers v startH rs))
       | None => false
       end
@@ -443,10 +465,11 @@ Inductive case :=
 | CR (ht : htab) (bl fl : runs) (hard : list (Z * Z)) (raws : list rraw) (envr : list renvrow)
      (hint : Z) (cps : list (Z * runs)) (T : rtruth) (tcps : runs) (honest : list Z) (ob : robs)
 | CC (ht : htab) (bl fl : runs) (genesis : Z) (cps : runs) (ars : list rarr) (T : rtruth) (ob : cobs)
-| CA (r : auxrow).
+| CA (r : auxrow)
+(* a U / R case together with the getcfheaders broadcasts the implementation sent *)
+| CQ (reqs : list (Z * Z)) (c : case).
 
-Definition verdict (c : Z * case) : list (Z * Z * Z * Z) :=
-  let '(id, cs) := c in
+Fixpoint verdict_r (id : Z) (reqs : list (Z * Z)) (cs : case) : list (Z * Z * Z * Z) :=
   match cs with
   | CS ht pt g gfh tr =>
     match init g gfh with
@@ -456,11 +479,14 @@ Definition verdict (c : Z * case) : list (Z * Z * Z * Z) :=
       (match s_mismatch ht pt b0 0 tr with Some i => [(id, 1, i, 0)] | None => [] end) ++
       (match s_bad ht (all_hashes tr) (Some (gfh, 0)) 0 tr with Some i => [(id, 2, i, 0)] | None => [] end)
     end
-  | CU ht bl fl raws envr T honest ob => u_verdict id ht bl fl raws envr T honest ob
+  | CU ht bl fl raws envr T honest ob => u_verdict id reqs ht bl fl raws envr T honest ob
   | CR ht bl fl hard raws envr hint cps T tcps honest ob =>
-    r_verdict id ht bl fl hard raws envr hint cps T tcps honest ob
+    r_verdict id reqs ht bl fl hard raws envr hint cps T tcps honest ob
   | CC ht bl fl genesis cps ars T ob => c_verdict id ht bl fl genesis cps ars T ob
   | CA r => aux_verdict id r
+  | CQ rq c => verdict_r id (reqs ++ rq) c
   end.
+
+Definition verdict (c : Z * case) : list (Z * Z * Z * Z) := verdict_r (fst c) [] (snd c).
 
 Definition run_cases (cs : list (Z * case)) : list (Z * Z * Z * Z) := flat_map verdict cs.
